@@ -130,6 +130,7 @@ impl RealState {
                     "api" => build_api(&t),
                     "bfs" => build_api_bfs(&t),
                     "tomb" => build_with_tombstones(&t, &mut rng),
+                    "tomb2" => build_with_tombstones2(&t, &mut rng),
                     "bottomup" => build_bottom_up(&t, &mut rng),
                     "parse" => match Tree::from_newick(&t.newick()) {
                         Ok(t) => t,
